@@ -9,17 +9,12 @@
 -/
 import FlacModel.Model.Basic
 import FlacModel.Gen.Tables
-import FlacModel.Gen.Crc
+import FlacModel.Model.Crc
 import FlacModel.Gen.KernelsDec
 import FlacModel.Gen.ShapesHdr
 
 namespace Flac
 open Gen
-
-/-! ### CRC (table driven, as the crate does it) -/
-
-def crc8 (bs : List Nat) : Nat := bs.foldl crc8Update 0
-def crc16 (bs : List Nat) : Nat := bs.foldl crc16Update 0
 
 /-! ### syntax tree -/
 
